@@ -369,3 +369,66 @@ def run_narrowedge(prog, ctx=None):
                    "" if ok else "%s: `%s` is stored with an accepted range [%s, %s]; the member holds [%s, %s]: the range test refuses the boundary value" % (
                        f.qn, norm(show(n, f))[:40], v.lo, v.hi, rg[0], rg[1]))
     return res
+
+
+RAW_INITIALISERS = ("mpt_identifier_init",)
+
+
+def run_initlive(prog, ctx=None):
+    """INITLIVE: mpt_identifier_init() makes raw memory an empty identifier: it resets the length and clears the inline
+    area that overlays the pointer to separately allocated content, without releasing that content.  It is applied only to
+    memory that holds no identifier yet: inside a constructor, inside a type_traits `init` operation (raw slot by
+    contract), on a local of the calling function, or on memory the function allocated itself.  On `*this` of another
+    member function, or on an object that came in through a parameter, it forgets (leaks) a long name and breaks
+    self-assignment."""
+    res = Result("INITLIVE")
+    from .rules_effect import root_of
+    from .rules_traits import traits_functions
+    raw_ok = {g.key() for role, g, key in traits_functions(prog) if role == "init"}
+    files = set(ctx.get("files", [])) if ctx else None
+    for f in funcs_of(prog, files):
+        for b, i, e in f.elements():
+            if e.get("k") != "call" or callee_name(e) not in RAW_INITIALISERS or not e.get("args"):
+                continue
+            a0 = e["args"][0]
+            root = root_of(a0)
+            why = None
+            if f.d.get("ctor"):
+                why = "constructor"
+            elif f.key() in raw_ok:
+                why = "type_traits init operation"
+            elif f.name in RAW_INITIALISERS:
+                why = "the initialiser itself"
+            elif root is not None and root != 0:
+                pids = {p["id"] for p in f.params}
+                if root not in pids:
+                    # a local: either the object itself (&local) or a pointer the function obtained from an allocation
+                    alloc = False
+                    islocal_obj = False
+                    for b2, i2, n in f.walk_all():
+                        pairs = []
+                        if n.get("k") == "decl":
+                            for v in n["vars"]:
+                                if v["id"] == root:
+                                    if f.T(v.get("t")).get("k") != "ptr":
+                                        islocal_obj = True
+                                    if v.get("init") is not None:
+                                        pairs.append(v["init"])
+                        elif n.get("k") == "bin" and n.get("op") == "=":
+                            l = strip(n["a"], lvalue_to_rvalue=False)
+                            if l.get("k") == "ref" and l["d"].get("id") == root:
+                                pairs.append(n["b"])
+                        for rhs in pairs:
+                            for m in walk(rhs):
+                                if m.get("k") == "call" and callee_name(m) in ("malloc", "calloc", "realloc"):
+                                    alloc = True
+                                if m.get("k") == "new":
+                                    alloc = True
+                    if islocal_obj:
+                        why = "local object"
+                    elif alloc:
+                        why = "memory allocated here"
+            res.ob("%s:%s" % (f.qn, norm(show(e, f))[:60]), why is not None, f, e.get("l", f.line) or f.line,
+                   "" if why is not None else "`%s` runs the raw initialiser on %s in %s, which is neither a constructor nor an init operation on raw memory: content the identifier holds (a separately allocated long name) is forgotten, not released" % (
+                       norm(show(e, f))[:80], "*this" if root == 0 else "an object that came in from the caller", f.qn))
+    return res
